@@ -91,8 +91,10 @@ def rintFallback (f : Fmt) (b : Nat) : Except Err Nat :=
     let wf := f.ofInt w
     let frac := f.sub b wf
     let result :=
-      if f.lt (half f) frac || (f.feq frac (half f) && w % 2 != 0) then f.ofInt (w + 1)
-      else if f.lt frac (f.neg (half f)) || (f.feq frac (f.neg (half f)) && w % 2 != 0) then f.ofInt (w - 1)
+      -- `static_cast<T>(whole) + T(1)` / `- T(1)`: the step is taken in T since 21f1c9f (`whole + 1` overflowed `long long`
+      -- for a long double just below 2^63)
+      if f.lt (half f) frac || (f.feq frac (half f) && w % 2 != 0) then f.add wf (f.ofInt 1)
+      else if f.lt frac (f.neg (half f)) || (f.feq frac (f.neg (half f)) && w % 2 != 0) then f.sub wf (f.ofInt 1)
       else wf
     if f.feq result 0 && f.lt b 0 then .ok (f.neg 0)
     else .ok (if f.feq result 0 && f.feq b 0 then b else result)
